@@ -155,13 +155,16 @@ def run_workers(prop, tier, seed, ncases, budget_s, nworkers=None, extra_env=Non
 
 
 def write_evidence(prop, tier, seed, level, coverage, assumptions, wall_s, violations):
-    os.makedirs(os.path.join(VERIF, "evidence"), exist_ok=True)
+    # evidence/ describes /repo itself; a run against a scratch copy with a deliberate change (tools/with_patch.sh,
+    # tools/mutants.py set PVMON_REPO) must not overwrite it
+    sub = "evidence" if os.environ.get("PVMON_REPO", "/repo").rstrip("/") == "/repo" else os.path.join("replays", "scratch-evidence")
+    os.makedirs(os.path.join(VERIF, sub), exist_ok=True)
     ev = {
         "property_id": prop, "tier": tier, "seed": seed, "level": level,
         "coverage": coverage, "assumptions": assumptions,
         "wall_s": round(wall_s, 2), "violations": violations,
     }
-    p = os.path.join(VERIF, "evidence", prop + ".json")
+    p = os.path.join(VERIF, sub, prop + ".json")
     tmp = p + ".tmp"
     with open(tmp, "w") as f:
         json.dump(ev, f, indent=1, sort_keys=True, default=str)
